@@ -181,10 +181,11 @@ def plant_loop_scopes(g):
     optimizer that hoists body nodes) must keep the two scopes apart."""
     if g.depth or "g_loop" in g.cfg.get("disable", ()):
         return None
-    r1 = g.g_loop()
+    plain = g.chance(6)  # plain for-loops (trip count only) most of the time
+    r1 = g.g_loop(plain_for=plain)
     if not r1:
         return None
-    r2 = g.g_loop(reuse=True)
+    r2 = g.g_loop(reuse=True, plain_for=plain)
     if not r2:
         return None
     g.features.add("planted:loop_scopes")
